@@ -578,11 +578,15 @@ STRINGS = ["", "x", "hello world", "yes", "no", "on", "null", "~", "true", "1.0"
            "? q", "@at", "`bt", "%p", "!bang", "&anch", "*star", "|pipe", ">gt", "C:\\path", "a,b", "ünï", "日本",
            "multi\nline", "tab\there", "dev", "test", "prod", ".5", "+1", "0o7", "NaN", ".inf", "y", "N"]
 ENV_STRINGS = ["${C17_A}", "$C17_B", "pre-${C17_A}-post", "http://$C17_B/x", "${C17_UNSET}", "$C17_A$C17_B", "cost 5$",
-               "${C17_A}${C17_UNSET}"]
+               "${C17_A}${C17_UNSET}",
+               # os.Expand's other forms: special one-character variables ($$, $1, $?, $-, $*, $#, $@, $!), "${}" (eaten)
+               "a$$b", "p$1x", "q$?r", "${}z", "x$-", "m$*n", "100%$#", "u$@v", "w$!", "${1}k", "$C17_A.$C17_B", "${C17_A}_${C17_B}"]
 ENV_VALUES = ["valueA", "b-2.x/y", "Zz_9", "srv.local:8080x", "w", ""]
 ENV_MAP_KEYS = ["$C17_A", "${C17_B}k", "pre$C17_A", "${C17_UNSET}u"]      # os.ExpandEnv works on the text: keys too
 PROP_VALUES = ["plain", "${C17_A}", "$C17_B", "pre-${C17_A}-post", "http://$C17_B/x", "${C17_UNSET}", "$C17_A$C17_B", "cost 5$",
-               "a b  c", "tcp(${C17_A}:3306)/db"]
+               "a b  c", "tcp(${C17_A}:3306)/db",
+               # a value is expanded on its own: also the unterminated forms
+               "a$$b", "p$1x", "q$?r", "${}z", "x$-", "x${", "${C17_A", "y${C17_A x", "$", "$ $C17_A", "{$C17_A}", "$${C17_A}"]
 PROP_KEYS = ["k1", "db.url", "k$C17_A", "Mixed.Key", "${C17_B}"]
 FLOATS = ["1.5", "0.25", "-3.75", "2.5e3", "1e-7", "2.5e21", "123456.789", "0.1", "-0.000123", "1.50", "3.14159265358979",
           "1.25e-10", "6.02e23", "0.5", "99.99", "1e-3", "12.0e-1", "7.0e-1"]
